@@ -6,6 +6,8 @@ pub mod c04;
 pub mod c05;
 pub mod c06;
 pub mod c07;
+pub mod c08;
+pub mod c08b;
 
 pub fn dispatch(ctx: &Ctx, replay_file: Option<&str>) -> i32 {
     macro_rules! prop {
@@ -26,6 +28,7 @@ pub fn dispatch(ctx: &Ctx, replay_file: Option<&str>) -> i32 {
         "C05" => prop!(c05),
         "C06" => prop!(c06),
         "C07" => prop!(c07),
+        "C08" => prop!(c08),
         other => {
             eprintln!("no check for property {}", other);
             2
